@@ -9,8 +9,7 @@ TRUSTED_BASE = [
     "scipy.linalg.lstsq (least-squares clause) is a parameter; oracle compares with the Yule-Walker coefficients",
     "exact mode: dyadic data, model in exact Gaussian rationals (orders <= 12), rtol 1e-8; float mode for larger sizes, rtol 1e-7",
 ]
-PARTIAL = ["lpc (FFT-based autocorrelation): model + correspondence; theorem lpc_eq_yule when present in Proofs/C12.lean "
-           "(stability is proved for every order: C12.yule_stable)"]
+PARTIAL = []   # lpc: C12.lpc_eq_yule (Wiener-Khinchin + inverse DFT + Levinson scale invariance); stability: C12.yule_stable
 ASSUMPTIONS = ["conditioning predicate: final error P >= 1e-7 r0 (noise-free tones make the fit singular; such cases are skipped and counted)"]
 RULE = ("non-zero real/complex data (noise, tones + noise, trends, integer-valued, complex dtype with zero imaginary part) of "
         "length 3..200 x orders 1..min(N-1, 30); non-trivial = order >= 2")
